@@ -13,12 +13,19 @@ CONSTANTS Dense          \* every value below Dense is in B
 
 Near(w) == {w, Add(w, W(1)), Add(w, W(2)), Sub(w, W(1)), Sub(w, W(2))}
 BDoc == UNION {Near(DocMax(f, n)) : <<f, n>> \in {<<g, m>> \in Families \X (1..9) : m >= MinLen(g) /\ m <= MaxLen(g)}}
+\* every point where a case analysis of the reference formats switches branch, not only the
+\* per-length maxima: the second-type payload of a split family changes byte width at
+\* offset + 256^k (that is where the never-shrink rule of split-full lives), tagged/chained
+\* groups at 2^(7k), and each first-type level starts at its offset
+BVar == UNION {Near(Add(W(SplitSpec[f].vsub), OnesBytes(k))) : <<f, k>> \in SplitFams \X (1..7)}
+        \cup UNION {Near(W(SplitSpec[f].lv[i].sub)) : <<f, i>> \in {<<g, j>> \in SplitFams \X (1..3) : j <= Len(SplitSpec[g].lv)}}
+        \cup UNION {Near(PowW(7 * k)) : k \in 1..9}
 BPow == UNION {Near(PowW(k)) : k \in 0..63}
 BPat == {[i \in 1..8 |-> IF i = p THEN b ELSE c] : <<p, b, c>> \in (1..8) \X {1, 127, 128, 255} \X {0, 255}}
          \cup {[i \in 1..8 |-> IF i <= p THEN 128 ELSE 0] : p \in 1..8}
          \cup {[i \in 1..8 |-> IF i <= p THEN 127 ELSE 0] : p \in 1..8}
 BSmall == {W(n) : n \in 0..(Dense - 1)}
-B == BDoc \cup BPow \cup BPat \cup BSmall \cup {Zero, AllOnes}
+B == BDoc \cup BVar \cup BPow \cup BPat \cup BSmall \cup {Zero, AllOnes}
 BSeq == SetToSortSeq(B, Lt)
 NB == Len(BSeq)
 
